@@ -349,7 +349,8 @@ Record opts := mkOpts {
   o_incl_fn : option (list (list key));        (* include_keys= callable: the child paths it accepts (every level) *)
   o_excl_fn : option (list (list key));        (* exclude_keys= callable: the child paths it rejects (every level) *)
   o_uncollapse_fn : option (list (list key));  (* uncollapse= callable: the paths on which it returns true *)
-  o_key_color_fn : option (list (list key * (option str * option str)))   (* key_color= callable *)
+  o_key_color_fn : option (list (list key * (option str * option str)));  (* key_color= callable *)
+  o_title : option str              (* title= (a str: text of the root's summary title; extensions such as pg.Ref pass type names) *)
 }.
 
 (* constants of the view *)
@@ -514,6 +515,10 @@ Section TreeView.
       end
     end.
 
+  (* ... with a title: a title also forces a summary for a simple value *)
+  Definition needs_summary_t (title : option str) (name : option key) (v : pv) : bool :=
+    needs_summary (match title with Some _ => Some (KInt 0%Z) | None => name end) v.
+
   (* HtmlTreeView.should_collapse (uncollapse given as a list of paths; KeyPathSet with include_intermediate) *)
   Definition should_collapse (name : option key) (path : list key) (cl : option Z) (v : pv) : bool :=
     match cl with
@@ -563,14 +568,14 @@ Section TreeView.
     else h.
 
   (* HtmlTreeView.summary *)
-  Definition summary_el (css : list str) (scolor : option str * option str) (name : option key) (path : list key) (v : pv) : hnode :=
+  Definition summary_el (css : list str) (scolor : option str * option str) (title : option str) (name : option key) (path : list key) (v : pv) : hnode :=
     El s_summary [] []
       ((match name with
         | Some k => [El s_div [] (class_attr (s_summary_name :: css) ++ style_attr scolor)
                        (Txt (name_text k) :: (if o_key_tooltip o then [tooltip_span css (path_str path)] else []))]
         | None => []
         end)
-       ++ [El s_div [] (class_attr (s_summary_title :: css)) [Txt (title_of v)]]
+       ++ [El s_div [] (class_attr (s_summary_title :: css)) [Txt (match title with Some (c :: r) => c :: r | _ => title_of v end)]]
        ++ (if o_summary_tooltip o then [tooltip_span css (fmt_of v)] else [])).
 
   (* HtmlTreeView.object_key (+ its tooltip) *)
@@ -587,9 +592,9 @@ Section TreeView.
     if is_str lk then (if (Z.of_nat (List.length raw) <? o_max_len o)%Z then (if latin1 raw then py_repr raw else rep) else raw) else rep.
 
   (* HtmlTreeView._render: summary + content (simple_value / complex_value) *)
-  Fixpoint tv (css : list str) (scolor : option str * option str) (name : option key) (path : list key) (cl : option Z)
+  Fixpoint tv (css : list str) (scolor : option str * option str) (title : option str) (name : option key) (path : list key) (cl : option Z)
               (incl excl : option (list key)) (v : pv) {struct v} : hnode :=
-    let ccss := if needs_summary name v then [] else css in
+    let ccss := if needs_summary_t title name v then [] else css in
     let content :=
       match v with
       | PLeaf lk _ cname raw rep _ =>
@@ -603,8 +608,8 @@ Section TreeView.
                    (fst kc,
                     if is_label_at is_seq path (fst kc)
                     then El s_tr [] [] [El s_td [] [] (key_cell (fst kc) cpath);
-                                        El s_td [] [] [hl_wrap cpath (tv [] (None, None) None cpath cl' None None (snd kc))]]
-                    else hl_wrap cpath (tv [] (None, None) (Some (fst kc)) cpath cl' None None (snd kc)))) items in
+                                        El s_td [] [] [hl_wrap cpath (tv [] (None, None) None None cpath cl' None None (snd kc))]]
+                    else hl_wrap cpath (tv [] (None, None) None (Some (fst kc)) cpath cl' None None (snd kc)))) items in
           let order := order_at path incl excl (map fst items) in
           let pick := flat_map (fun k => match assoc_key k rendered with Some h => [h] | None => [] end) in
           (* summary-style children first, then one table with the label-style children *)
@@ -617,12 +622,12 @@ Section TreeView.
               | _ => kids
               end)
       end in
-    if needs_summary name v
+    if needs_summary_t title name v
     then El s_details (if should_collapse name path cl v then [] else [s_open]) (class_attr ([s_pyglove; cname_of v] ++ css))
-            [summary_el css (match name with Some _ => scolor | None => (None, None) end) name path v; content]
+            [summary_el css (match name with Some _ => scolor | None => (None, None) end) title name path v; content]
     else content.
 
-  Definition tree_view (v : pv) : hnode := tv (o_css o) (o_summary_color o) (o_name o) (o_root_path o) (o_collapse o) (o_include o) (o_exclude o) v.
+  Definition tree_view (v : pv) : hnode := tv (o_css o) (o_summary_color o) (o_title o) (o_name o) (o_root_path o) (o_collapse o) (o_include o) (o_exclude o) v.
 
   (* which keys the options ask to show, and as what text: label-style keys (and all indices of a list / tuple) through
      object_key, summary-style keys as the summary name of the child -- when the child has a summary at all *)
@@ -687,7 +692,7 @@ Fixpoint d_pv (fuel : nat) (t : tr) : option pv :=
   end.
 Definition d_opts (t : tr) : option opts :=
   match t with
-  | L [nm; rp; es; fs; ml; st; kt; lb; inc; exc; cl; unc; css; sc; kc; hi; lo; ksf; incf; excf; uncf; kcf] =>
+  | L [nm; rp; es; fs; ml; st; kt; lb; inc; exc; cl; unc; css; sc; kc; hi; lo; ksf; incf; excf; uncf; kcf; ttl] =>
       do nm' <- dopt d_key nm; do rp' <- dlist d_key rp; do es' <- dopt dbool es; do fs' <- dbool fs; do ml' <- dZ ml;
       do st' <- dbool st; do kt' <- dbool kt; do lb' <- dbool lb;
       do inc' <- dopt (dlist d_key) inc; do exc' <- dopt (dlist d_key) exc; do cl' <- dopt dZ cl; do unc' <- dlist (dlist d_key) unc;
@@ -695,7 +700,8 @@ Definition d_opts (t : tr) : option opts :=
       let dpaths := dlist (dlist d_key) in
       do hi' <- dpaths hi; do lo' <- dpaths lo; do ksf' <- dopt dpaths ksf; do incf' <- dopt dpaths incf; do excf' <- dopt dpaths excf;
       do uncf' <- dopt dpaths uncf; do kcf' <- dopt (dlist (dpair (dlist d_key) (dpair (dopt dstr) (dopt dstr)))) kcf;
-      Some (mkOpts nm' rp' es' fs' ml' st' kt' lb' inc' exc' cl' unc' css' sc' kc' hi' lo' ksf' incf' excf' uncf' kcf')
+      do ttl' <- dopt dstr ttl;
+      Some (mkOpts nm' rp' es' fs' ml' st' kt' lb' inc' exc' cl' unc' css' sc' kc' hi' lo' ksf' incf' excf' uncf' kcf' ttl')
   | _ => None
   end.
 
